@@ -9,7 +9,8 @@ pub struct C16;
 
 #[derive(Serialize, Deserialize, Clone, Debug, PartialEq)]
 pub struct C16Case {
-    /// 0: big values (value file largest), 1: many long keys (key file largest), 2: huge table (table file largest)
+    /// 0: big values (value file largest), 1: many long keys (key file largest), 2: huge table
+    /// (table file largest), 3: exactly 65536 small updates between the baseline flush and the call
     pub shape: u8,
     /// 0 flush, 1 sync_data, 2 sync_all (on the map); 3 sync_data, 4 sync_all on the database
     /// object, with a second small map "zz_small" (vu64 keys, visited after the big one) open
@@ -92,6 +93,12 @@ fn workload(kt: Kt, shape: u8) -> (Vec<(Vec<u8>, Option<Vec<u8>>)>, Vec<(Vec<u8>
             }
             for i in 0..n / 10 {
                 b.push((key_bytes(kt, shape, i * 3), None));
+            }
+        }
+        3 => {
+            a.push((key_bytes(kt, shape, 0), Some(pattern_bytes(9, 0))));
+            for i in 0..65536u64 {
+                b.push((key_bytes(kt, shape, i % 40), Some(pattern_bytes(7 + (i % 3) as usize, (i / 40) as u32))));
             }
         }
         _ => {
@@ -476,6 +483,7 @@ fn sizes_of(shape: u8, kt: Kt, w: &WCtx) -> Result<[u64; 3], Failure> {
 }
 
 fn run_c16(c: &C16Case, w: &WCtx) -> Result<Report, Failure> {
+    crate::exec::tick();
     let mut rep = Report::default();
     let (o, dir) = run_child(c, false, w)?;
     let fin = (|| {
@@ -546,7 +554,7 @@ fn n_thresholds(tier: Tier) -> u64 {
 fn case_of(tier: Tier, index: u64, w: &WCtx) -> Result<C16Case, Failure> {
     let nt = n_thresholds(tier);
     let per_shape = nt * 5;
-    let shape = ((index / per_shape) % 3) as u8;
+    let shape = ((index / per_shape) % 4) as u8;
     let call = ((index % per_shape) / nt) as u8;
     let j = index % nt;
     // key types rotate with the threshold index; the byte-key types make the key file large
@@ -575,7 +583,7 @@ impl Prop for C16 {
         "fault_enumeration"
     }
     fn rule(&self) -> String {
-        "fault enumeration in a child process (SIGXFSZ ignored): three workload shapes so that each file is in turn the largest (values of 150-400 KB; 600 keys of ~1 KB; 65536-bucket table with few entries), a flushed baseline followed by buffered updates made with the limit lifted; then RLIMIT_FSIZE = T and flush / sync_data / sync_all on the map, or sync_data / sync_all on the database object with a second small map (visited after the big one) open and updated; T ranges over the header offsets, every 128 KiB buffer-chunk boundary (-1, 0, +1, +1000) up to beyond the largest file, each file's end (-1, 0, +1) and half of it (quick: 60 thresholds per shape and call spread over that list, thorough: 250). Oracle: Ok under the limit => the files on disk hold the model state (independent decode + copy opened with the crate); Err => (i) reads while the limit is in force may return Err but never a wrong value, (ii) after lifting the limit get of every key, len and a full iteration equal the model, (iii) the next flush/sync returns Ok and the files on disk hold the model state, also in the directory left behind when the process exits without running destructors (as by SIGKILL). evaluations = (shape, call, T, key type) cases. Non-trivial: T at which the call returned Err; distinct by (shape, call, T, key type)."
+        "fault enumeration in a child process (SIGXFSZ ignored): four workload shapes: three so that each file is in turn the largest (values of 150-400 KB; 600 keys of ~1 KB; 65536-bucket table with few entries) and one with exactly 65536 small updates between the baseline flush and the call, a flushed baseline followed by buffered updates made with the limit lifted; then RLIMIT_FSIZE = T and flush / sync_data / sync_all on the map, or sync_data / sync_all on the database object with a second small map (visited after the big one) open and updated; T ranges over the header offsets, every 128 KiB buffer-chunk boundary (-1, 0, +1, +1000) up to beyond the largest file, each file's end (-1, 0, +1) and half of it (quick: 60 thresholds per shape and call spread over that list, thorough: 250). Oracle: Ok under the limit => the files on disk hold the model state (independent decode + copy opened with the crate); Err => (i) reads while the limit is in force may return Err but never a wrong value, (ii) after lifting the limit get of every key, len and a full iteration equal the model, (iii) the next flush/sync returns Ok and the files on disk hold the model state, also in the directory left behind when the process exits without running destructors (as by SIGKILL). evaluations = (shape, call, T, key type) cases. Non-trivial: T at which the call returned Err; distinct by (shape, call, T, key type)."
             .to_string()
     }
     fn assumptions(&self) -> Vec<String> {
@@ -585,7 +593,7 @@ impl Prop for C16 {
         ]
     }
     fn n_cases(&self, tier: Tier) -> u64 {
-        n_thresholds(tier) * 3 * 5
+        n_thresholds(tier) * 4 * 5
     }
     fn timeout_s(&self, _tier: Tier) -> u64 {
         150
